@@ -78,10 +78,12 @@ def p_post_read_report(key, read_key, n, region):
             P(region), P(3), op("STO"), P(1), P(0), op("STO"), P(1), P(1), op("STO"), P(key), P(2), op("STO"), P(2)])
 
 
-def p_post_read_push(read_key, n, region, maddr=0):
+def p_post_read_push(read_key, n, region, maddr=0, over_halt=False):
     """non-leaf (deferred): reads post-state values into memory at `maddr` and pushes the whole region onto its stack
-    (maddr = 1 / 257 puts a Push immediate whose low byte is the Push opcode directly before the read op)"""
-    return ([P(region + maddr), op("ALOC"), op("POP")] + [P(w) for w in read_key] + [P(len(read_key)), P(n), P(maddr), op("PKRNG"),
+    (maddr = 1 / 257 puts a Push immediate whose low byte is the Push opcode directly before the read op; over_halt: the read
+    sits behind an unconditional Halt that a forward jump skips — the byte scan for post-state reads must not stop there)"""
+    skip = [P(2), P(1), op("JMPIF"), op("HLT")] if over_halt else []
+    return ([P(region + maddr), op("ALOC"), op("POP")] + skip + [P(w) for w in read_key] + [P(len(read_key)), P(n), P(maddr), op("PKRNG"),
             P(maddr), P(region), op("LODR")])
 
 
@@ -525,10 +527,10 @@ def c03_case(rng, shape, read_key, n, declared, computed, pre, other_contract=Fa
         # chain_rev numbers the chain against the edges (leaf first): reader=3, middle=2, leaf=0
         if shape == "chain":
             children = [[1], [2], [], []]          # 0 reader,1 middle,2 report leaf,3 pass-1 leaf
-            programs = [p_post_read_push(read_key, n, region, maddr), p_const(5), p_report_stack(7777), out_leaf]
+            programs = [p_post_read_push(read_key, n, region, maddr, over_halt=rng.random() < 0.3), p_const(5), p_report_stack(7777), out_leaf]
         else:
             children = [[], [], [0], [2]]          # 0 report leaf, 1 pass-1 leaf, 2 middle, 3 reader
-            programs = [p_report_stack(7777), out_leaf, p_const(5), p_post_read_push(read_key, n, region, maddr)]
+            programs = [p_report_stack(7777), out_leaf, p_const(5), p_post_read_push(read_key, n, region, maddr, over_halt=rng.random() < 0.3)]
         exp_muts.append(([7777], layout(maddr, values, region + maddr)[maddr:] + [5]))
     elif shape == "diamond":
         # pre-reading root and post-reading root feed one reporting leaf: parents in ascending order
@@ -1002,6 +1004,29 @@ def c01_cases(rng, tier):
                 cases.append(case)
                 oracles.append("o_pool 2 1 4 2 " + case)
                 oracles.append("o_pool 2 1 4 2 " + api_variants(rng, case, 1, [], k=1)[0])
+    # parents whose outputs add up to exactly the stack / memory limit (must be accepted), one below, one above
+    def p_stack_of(k):
+        return [P(k - 1), op("RES")]                     # k words: k-1 zeros and the start index
+    def p_mem_of(k):
+        return [P(k), op("ALOC"), op("POP")] if k else []
+    leaf_drop_all = [op("POP"), P(0), op("RES"), op("DROP"), P(1)]
+    SL, ML = V.STACK_LIMIT, V.MEM_LIMIT
+    for sizes, ok in (((SL // 2, SL // 2), True), ((SL // 2, SL // 2 + 1), False), ((SL // 2 - 1, SL // 2), True), ((SL,), True), ((SL - 1,), True),
+                      ((1, SL - 1), True), ((1, 1, SL - 2), True), ((2, 1, SL - 2), False)):
+        children = [[len(sizes)] for _ in sizes] + [[]]
+        programs = [p_stack_of(k) for k in sizes] + [leaf_drop_all]
+        pred, pbytes = build_pred(encode_valid(children), programs)
+        for ca in (False, True):
+            case = check_case("twopass", ca, [(ADDR_A, ADDR_B, [], [])], [(ADDR_A, ADDR_B, pred)], pbytes, [])
+            cases.append(case)
+            oracles.append("o_ref " + expect_tok("ok []" if ok else "err") + " " + case)
+    for sizes, ok in (((ML // 2, ML // 2), True), ((ML // 2, ML // 2 + 1), False), ((ML,), True), ((ML - 1, 1), True), ((ML, 1), False), ((ML, 0), True)):
+        children = [[len(sizes)] for _ in sizes] + [[]]
+        programs = [p_mem_of(k) + [P(3)] for k in sizes] + [leaf_drop_all]
+        pred, pbytes = build_pred(encode_valid(children), programs)
+        case = check_case("twopass", False, [(ADDR_A, ADDR_B, [], [])], [(ADDR_A, ADDR_B, pred)], pbytes, [])
+        cases.append(case)
+        oracles.append("o_ref " + expect_tok("ok []" if ok else "err") + " " + case)
     # cyclic and malformed graphs: rejected, nothing evaluated (a data-output program at every node would otherwise show up)
     pc = prog_bytes(p_const(7))
     pr = prog_bytes(p_output_mutation([1], [2]))
